@@ -5,12 +5,14 @@ package main
 
 import (
 	"fmt"
+	"go/ast"
 	"go/constant"
 	"go/token"
 	"go/types"
 	"math/big"
 	"sort"
 	"strings"
+	"time"
 
 	"golang.org/x/tools/go/ssa"
 )
@@ -26,6 +28,8 @@ type Obligation struct {
 	Path    int
 	// model extraction support
 	Inputs []NamedVal
+	Props  []string // clause-level properties (nil: function-level)
+	ex     *Exec
 }
 
 type NamedVal struct {
@@ -35,6 +39,7 @@ type NamedVal struct {
 }
 
 type abortPath struct{ reason string }
+type abortAll struct{ reason string }
 
 type Frame struct {
 	fn      *ssa.Function
@@ -44,6 +49,21 @@ type Frame struct {
 	retK    func(st *State, results []Value)
 	entrySt *State // state at function entry (for old() in callee contract check — only root)
 	callStr string
+	stopAt  *ssa.BasicBlock
+	stopK   func(st *State, fr *Frame, prev *ssa.BasicBlock)
+	names   map[string]nameRef          // source-level names (from DebugRef) -> current value
+	loops   map[*ssa.BasicBlock]*loopCtx // active loop cut points on this path
+}
+
+type nameRef struct {
+	v      ssa.Value
+	isAddr bool
+}
+
+type loopCtx struct {
+	li      *loopInfo
+	measure *Term // value of the decreases expression at the head
+	headSt  *State
 }
 
 type deferred struct {
@@ -59,6 +79,18 @@ func (fr *Frame) fork() *Frame {
 		n.regs[k] = v
 	}
 	n.defers = append([]deferred{}, fr.defers...)
+	if fr.names != nil {
+		n.names = make(map[string]nameRef, len(fr.names))
+		for k, v := range fr.names {
+			n.names[k] = v
+		}
+	}
+	if fr.loops != nil {
+		n.loops = make(map[*ssa.BasicBlock]*loopCtx, len(fr.loops))
+		for k, v := range fr.loops {
+			n.loops[k] = v
+		}
+	}
 	return &n
 }
 
@@ -75,11 +107,18 @@ type Exec struct {
 	intrUsed map[string]bool
 	trivial  int // safety checks discharged by the simplifier
 	trivialNames map[string]string
+	clauseProps  map[string][]string
 	ordinals map[ssa.Instruction]string
 	failed   []string // tool-limit / unsupported reasons
 	inputs   []NamedVal
 	// per-path loop iteration counters (symbolic forks at a header)
 	maxForks int
+	maxPaths int
+	merges   int
+	noMerge  bool
+	entry    *State        // state at entry of the root function (old())
+	rootVars map[string]TV // ghost/let bindings of the root contract
+	deadline time.Time
 }
 
 func (ex *Exec) fail(reason string) {
@@ -126,7 +165,7 @@ func (ex *Exec) addObl(st *State, kind, label string, goal *Term, where string) 
 	o := &Obligation{
 		Name: ex.rootName + "#" + label, Func: ex.rootName, Label: label, Kind: kind,
 		Assumes: append([]*Term{}, st.assumes...), Goal: goal, Where: where, Path: ex.paths,
-		Inputs: ex.inputs,
+		Inputs: ex.inputs, ex: ex,
 	}
 	ex.obls = append(ex.obls, o)
 }
@@ -277,17 +316,35 @@ func copyVisits(m map[*ssa.BasicBlock]int) map[*ssa.BasicBlock]int {
 	return n
 }
 
-func (ex *Exec) runBlock(fr *Frame, b *ssa.BasicBlock, prev *ssa.BasicBlock, st *State, visits map[*ssa.BasicBlock]int) {
+func (ex *Exec) runBlockNoPhi(fr *Frame, b *ssa.BasicBlock, st *State, visits map[*ssa.BasicBlock]int) {
 	visits[b]++
-	if visits[b] > 600 {
-		panic(abortPath{fmt.Sprintf("block visit limit in %s (loop without invariant?)", fr.fn)})
-	}
-	// loop invariant cut point?
 	if li := ex.eng.loopInvariantFor(fr.fn, b); li != nil && fr.depth == 0 {
-		ex.atLoopHead(fr, b, prev, st, visits, li)
+		panic(abortAll{"merge into a loop head"})
+	}
+	ex.runInstrs(fr, b, 0, st, visits)
+}
+
+func (ex *Exec) runBlock(fr *Frame, b *ssa.BasicBlock, prev *ssa.BasicBlock, st *State, visits map[*ssa.BasicBlock]int) {
+	if fr.stopAt == b && fr.stopK != nil {
+		fr.stopK(st, fr, prev)
 		return
 	}
+	visits[b]++
+	if visits[b] > 600 {
+		panic(abortAll{fmt.Sprintf("block visit limit in %s (loop without invariant?)", fr.fn)})
+	}
 	// phis first (parallel assignment)
+	ex.bindPhis(fr, b, prev)
+	// loop invariant cut point?
+	if li := ex.eng.loopInvariantFor(fr.fn, b); li != nil && fr.depth == 0 {
+		if !ex.atLoopHead(fr, b, prev, st, visits, li) {
+			return
+		}
+	}
+	ex.runInstrs(fr, b, 0, st, visits)
+}
+
+func (ex *Exec) bindPhis(fr *Frame, b *ssa.BasicBlock, prev *ssa.BasicBlock) {
 	if prev != nil {
 		idx := -1
 		for i, p := range b.Preds {
@@ -310,20 +367,28 @@ func (ex *Exec) runBlock(fr *Frame, b *ssa.BasicBlock, prev *ssa.BasicBlock, st 
 			fr.regs[phi] = vals[i]
 		}
 	}
-	ex.runInstrs(fr, b, 0, st, visits)
 }
 
 func (ex *Exec) runInstrs(fr *Frame, b *ssa.BasicBlock, start int, st *State, visits map[*ssa.BasicBlock]int) {
 	for i := start; i < len(b.Instrs); i++ {
 		ex.steps++
 		if ex.steps > ex.maxSteps {
-			panic(abortPath{"step limit"})
+			panic(abortAll{"step limit"})
+		}
+		if ex.steps%256 == 0 && time.Now().After(ex.deadline) {
+			panic(abortAll{"symbolic execution time limit"})
 		}
 		in := b.Instrs[i]
 		switch x := in.(type) {
 		case *ssa.Phi:
 			continue
 		case *ssa.DebugRef:
+			if id, ok := x.Expr.(*ast.Ident); ok && fr.depth == 0 {
+				if fr.names == nil {
+					fr.names = map[string]nameRef{}
+				}
+				fr.names[id.Name] = nameRef{v: x.X, isAddr: x.IsAddr}
+			}
 			continue
 		case *ssa.If:
 			c := Subst(ex.get(fr, x.Cond).(*Term), st.substMap())
@@ -335,11 +400,21 @@ func (ex *Exec) runInstrs(fr *Frame, b *ssa.BasicBlock, start int, st *State, vi
 				ex.runBlock(fr, b.Succs[1], b, st, visits)
 				return
 			}
-			visits[b] += 0
+			if J := ipdoms(fr.fn)[b]; J != nil && !ex.noMerge && ex.eng.loopInvariantFor(fr.fn, J) == nil {
+				visits[nil]++
+				if visits[nil] > ex.maxForks {
+					panic(abortAll{"fork limit on one path (loop without invariant?)"})
+				}
+				ex.forkAndMerge(fr, b, c, J, st, visits)
+				return
+			}
 			// symbolic fork
 			forks := visits[nil] + 1
 			if forks > ex.maxForks {
-				panic(abortPath{"fork limit"})
+				panic(abortAll{"fork limit on one path (loop without invariant?)"})
+			}
+			if ex.paths > ex.maxPaths {
+				panic(abortAll{"path limit"})
 			}
 			st1 := st.Clone()
 			st1.AssumeCond(c)
@@ -627,12 +702,18 @@ func (ex *Exec) binop(fr *Frame, x *ssa.BinOp, st *State) Value {
 		return BVBin("bvmul", ta, tb)
 	case token.QUO:
 		ex.safe(st, x, "div0", Neq(tb, BVc(0, tb.Sort.Width())))
+		if q, _, ok := divByConst(st, ta, tb, signed); ok {
+			return q
+		}
 		if signed {
 			return BVBin("bvsdiv", ta, tb)
 		}
 		return BVBin("bvudiv", ta, tb)
 	case token.REM:
 		ex.safe(st, x, "div0", Neq(tb, BVc(0, tb.Sort.Width())))
+		if _, r, ok := divByConst(st, ta, tb, signed); ok {
+			return r
+		}
 		if signed {
 			return BVBin("bvsrem", ta, tb)
 		}
@@ -1039,4 +1120,46 @@ func bvToKey(k *Term, t types.Type) Value {
 		return Neq(k, BVc(0, 64))
 	}
 	return Extract(s.Width()-1, 0, k)
+}
+
+// divByConst: 64-bit division of a symbolic value by a positive constant is
+// expressed through its defining equation x = q*c + r (exact, truncated
+// division), which SMT solvers handle far better than a division circuit.
+var divCache = map[[2]int][2]*Term{}
+
+func divByConst(st *State, x, c *Term, signed bool) (q, r *Term, ok bool) {
+	if x.Sort.Width() != 64 || !c.IsConst() || x.IsConst() {
+		return nil, nil, false
+	}
+	var cv *big.Int
+	if signed {
+		cv = c.Signed()
+	} else {
+		cv = c.Val
+	}
+	if cv.Sign() <= 0 || cv.BitLen() > 40 || cv.Cmp(big.NewInt(1)) == 0 {
+		return nil, nil, false
+	}
+	key := [2]int{x.id, c.id}
+	if signed {
+		key[1] = -c.id
+	}
+	qr, have := divCache[key]
+	if !have {
+		qr = [2]*Term{FreshVar("divq", BV(64)), FreshVar("divr", BV(64))}
+		divCache[key] = qr
+	}
+	q, r = qr[0], qr[1]
+	eq := Eq(x, BVBin("bvadd", BVBin("bvmul", q, c), r))
+	if signed {
+		lim := new(big.Int).Quo(new(big.Int).Lsh(big.NewInt(1), 63), cv)
+		qb := And(BVCmp("bvsle", q, BVConst(lim, 64)), BVCmp("bvsge", q, BVConst(new(big.Int).Neg(lim), 64)))
+		pos := And(BVCmp("bvsge", r, BVc(0, 64)), BVCmp("bvslt", r, c), BVCmp("bvsge", q, BVc(0, 64)))
+		neg := And(BVCmp("bvsle", r, BVc(0, 64)), BVCmp("bvsgt", r, BVNeg(c)), BVCmp("bvsle", q, BVc(0, 64)))
+		st.Assume(And(eq, qb, Ite(BVCmp("bvsge", x, BVc(0, 64)), pos, neg)))
+	} else {
+		lim := new(big.Int).Quo(mask(64), cv)
+		st.Assume(And(eq, BVCmp("bvule", q, BVConst(lim, 64)), BVCmp("bvult", r, c)))
+	}
+	return q, r, true
 }
